@@ -30,3 +30,25 @@ Definition tag (c : case) : N :=
   match go_call (fp c) (chain c) (trusted c) with Sent => 1 | RefusedBadFingerprint => 2 | RefusedNoMatch => 3 | RefusedValidation => 4 end +
   10 * N.of_nat (length (chain c)).
 Definition judge_all_tags (cs : list case) : list N := map tag cs.
+
+(** Calls which are led to several servers (redirects): [rhops] = the servers in order (chain, trusted), [rhits] = which of them received a request. *)
+Record rcase := mkr { rfp : bytes; rhops : list (list bytes * bool); rhits : list bool; rglobal_changed : bool }.
+Fixpoint bools_eqb (a b : list bool) : bool :=
+  match a, b with
+  | [], [] => true
+  | x :: a', y :: b' => Bool.eqb x y && bools_eqb a' b'
+  | _, _ => false
+  end.
+(** no server may receive a request which the model says is not reached; the exact pattern is a correspondence matter *)
+Fixpoint no_extra_hit (obs model : list bool) : bool :=
+  match obs, model with
+  | o :: obs', m :: model' => (negb o || m) && no_extra_hit obs' model'
+  | [], _ => true
+  | o :: obs', [] => negb o && no_extra_hit obs' []
+  end.
+Definition judge_r (c : rcase) : verdict :=
+  first_fail [ (no_extra_hit (rhits c) (hops_hit (rfp c) (rhops c)), v_violation 1);
+               (negb (rglobal_changed c), v_violation 2);
+               (bools_eqb (rhits c) (hops_hit (rfp c) (rhops c)), v_mismatch 10) ].
+Definition judge_redir (cs : list rcase) : list (N * N * N) := judge_list judge_r cs.
+Definition judge_redir_tags (cs : list rcase) : list N := map (fun c => N.of_nat (length (filter (fun b => b) (hops_hit (rfp c) (rhops c))))) cs.
